@@ -448,6 +448,26 @@ def install(c):
         from .arrays import fresh_name
 
         new = build_array(it, fresh_name(it), x.attrs["_shape"], grids, x.attrs["_dtype"], x.attrs["spec"])
+        # the new array owns a fresh plan: its node and the (rechunk) operation that produces it
+        import networkx as nx
+
+        PlanCls = it.world.lookup("cubed.core.plan:Plan")
+        PO = it.world.lookup("cubed.primitive.types:PrimitiveOperation")
+        CP = it.world.lookup("cubed.runtime.types:CubedPipeline")
+        BS = it.world.lookup("cubed.primitive.blockwise:BlockwiseSpec")
+        PX = it.world.lookup("cubed.primitive.types:CubedArrayProxy")
+        nm = new.attrs["name"]
+        z = new.attrs["_zarray"]
+        bs = it.call(BS, [Opaque("rechunk.keyfn"), Opaque("rechunk.fn"), (1,), (1,), {}, {nm: it.call(PX, [z, z.chunks], {})}], {})
+        pipe = it.call(CP, [Opaque("apply_blockwise"), "rechunk-pipeline", Opaque("tasks"), bs], {})
+        rop = it.call(PO, [], dict(pipeline=pipe, source_array_names=[x.attrs["name"]], target_array=z,
+                                   projected_mem=0, allowed_mem=0, reserved_mem=0, num_tasks=1,
+                                   fusable_with_predecessors=False, fusable_with_successors=False))
+        dag = nx.MultiDiGraph()
+        dag.add_node(f"op-{nm}", name=f"op-{nm}", type="op", primitive_op=rop, pipeline=pipe, op_name="rechunk")
+        dag.add_node(nm, name=nm, type="array", target=z)
+        dag.add_edge(f"op-{nm}", nm)
+        new.attrs["_plan"] = IObj(PlanCls, dict(dag=dag, array_names=(nm,)))
         c.aliases = getattr(c, "aliases", {})
         c.aliases[new.attrs["name"]] = x.attrs["name"]
         it.ctx.note_assumption("rechunk: contract used at call sites (identity on values, requested chunks); proved by the C14 contracts")
